@@ -1,7 +1,292 @@
-"""C04 — not implemented yet (fail closed)."""
-from ..model import AnalysisError
+"""C04 Deleting shadowed entries never changes a decision — bookkeeping around the removal."""
+
+from __future__ import annotations
+
+import ast
+from typing import Dict, List, Optional, Set, Tuple
+
+from ..cfg import Node
+from ..core import Ctx, Report, snippet, where
+from ..model import Func, own_nodes, src
+from ..pathsem import function_paths, resolve_local
+from .c03 import helper_for_field, port_cover_rules, r03_1
+from .common import chain, deep_resolve, mentions, reachable_without_edges
+from .shading import _int_offset, analyse_shading, check_strictly_above
+
 PROPERTY = "C04"
 LEVEL = "other"
-EXPLANATION = "not implemented"
-def run(ctx, rep, tier):
-    raise AnalysisError("rules for C04 are not implemented yet")
+EXPLANATION = (
+    "Decides the bookkeeping around the removal and its soundness premise: the pairwise test is a full conjunction and "
+    "does not read an empty port list as 'no restriction'; the report returned by delete_shadow is the object the "
+    "shading query produced, unmodified, and the queries do not write the ACL; candidates stand strictly below their "
+    "top; only items after the top are filtered, by membership in the report, order preserved, and the grouping is "
+    "re-applied. Does not decide first-match equivalence for all ACLs and packets, idempotence, or behaviour under "
+    "duplicate lines (properties of values)."
+)
+ASSUMPTIONS = ["Ace.shadow_of is sound on the clauses C03 decides"]
+
+DICT_MUTATORS = {"pop", "clear", "update", "setdefault", "popitem", "__setitem__", "__delitem__"}
+
+
+def _local_defs(f: Func) -> Dict[str, List[ast.AST]]:
+    d: Dict[str, List[ast.AST]] = {}
+    for n in own_nodes(f.node):
+        if isinstance(n, ast.Assign) and len(n.targets) == 1 and isinstance(n.targets[0], ast.Name):
+            d.setdefault(n.targets[0].id, []).append(n.value)
+        elif isinstance(n, ast.AnnAssign) and isinstance(n.target, ast.Name) and n.value is not None:
+            d.setdefault(n.target.id, []).append(n.value)
+    return d
+
+
+def _is_shading_call(e: Optional[ast.AST]) -> bool:
+    return isinstance(e, ast.Call) and isinstance(e.func, ast.Attribute) and e.func.attr == "shading" and src(e.func.value) == "self"
+
+
+def r04_1(ctx: Ctx, rep: Report) -> None:  # noqa: C901
+    rep.rule("R04.1")
+    ds = ctx.func("Acl.delete_shadow")
+    cfg = ctx.cfg(ds)
+    defs = _local_defs(ds)
+    rep.instance()
+    dnames = [k for k, v in defs.items() if any(_is_shading_call(x) for x in v)]
+    if not dnames:
+        rep.violation("Acl.delete_shadow", "report", "the report is not obtained from self.shading(...)", where(ds))
+        return
+    D = dnames[0]
+    call = [x for x in defs[D] if _is_shading_call(x)][0]
+    args = [src(a) for a in call.args] + [src(k.value) for k in call.keywords]
+    if "skip" in ds.params and args != ["skip"]:
+        rep.violation("Acl.delete_shadow", snippet(call), "the shading query is not asked with the caller's own skip options", where(ds, call))
+    else:
+        rep.ok(f"Acl.delete_shadow: {D} = {snippet(call)}", "report comes from the shading query with the caller's skip", where=where(ds, call))
+    if len(defs[D]) > 1:
+        rep.violation("Acl.delete_shadow", f"{D} assigned {len(defs[D])} times", "the report variable is re-bound after the query", where(ds))
+    # returns
+    for p in function_paths(cfg):
+        if p.raises:
+            continue
+        r = p.ret
+        if isinstance(r, ast.Name) and r.id == D:
+            continue
+        empty_ok = False
+        if isinstance(r, ast.Dict) and not r.keys or (isinstance(r, ast.Call) and src(r) == "dict()"):
+            for test, truth in p.atoms:
+                if src(test) == D and not truth:
+                    empty_ok = True
+        if empty_ok:
+            continue
+        rep.violation("Acl.delete_shadow", f"return {snippet(r) if r is not None else 'None'}", "the returned report is not what the shading query returned just before", where(ds))
+        break
+    else:
+        rep.ok("Acl.delete_shadow: returns", f"every normal path returns {D} (or an empty dict when {D} is empty)", where=where(ds))
+    # no mutation of the report
+    muts = []
+    for n in own_nodes(ds.node):
+        if isinstance(n, ast.Call) and isinstance(n.func, ast.Attribute) and n.func.attr in DICT_MUTATORS | {"append", "extend", "remove", "sort", "reverse", "insert"}:
+            c = chain(n.func.value) if not isinstance(n.func.value, ast.Subscript) else chain(n.func.value.value)
+            if c and c[0] == D:
+                muts.append(n)
+        if isinstance(n, (ast.Assign, ast.AugAssign, ast.Delete)):
+            tgts = n.targets if isinstance(n, (ast.Assign, ast.Delete)) else [n.target]
+            for t in tgts:
+                if isinstance(t, ast.Subscript):
+                    c = chain(t.value)
+                    if c and c[0] == D:
+                        muts.append(n)
+    rep.instance()
+    if muts:
+        rep.violation("Acl.delete_shadow", snippet(muts[0]), "the report is modified between the query and the return", where(ds, muts[0]))
+    else:
+        rep.ok(f"Acl.delete_shadow: {D} is never mutated", "no []=, del, pop, update, setdefault, clear on it")
+    # Acl.shadow_of derives from the same query
+    so = ctx.func("Acl.shadow_of")
+    rep.instance()
+    d2 = _local_defs(so)
+    okso = any(_is_shading_call(x) and ([src(a) for a in x.args] + [src(k.value) for k in x.keywords]) == ["skip"] for v in d2.values() for x in v)
+    if not okso:
+        for n in own_nodes(so.node):
+            if _is_shading_call(n):
+                okso = True
+    if okso:
+        rep.ok("Acl.shadow_of", "derives from self.shading(skip)", where=where(so))
+    else:
+        rep.violation("Acl.shadow_of", "query", "the flat shadow list is not derived from self.shading(skip)", where(so))
+    # purity of the queries
+    for q in ("Acl.shading", "Acl.shadow_of"):
+        f = ctx.func(q)
+        rep.instance()
+        w = sorted(ctx.effects.self_writes(f))
+        if w:
+            s = ctx.effects.summary(f)
+            sites = [st for wr, lst in s.sites.items() if wr[0] == "self" for st in lst][:2]
+            rep.violation(q, f"writes {w}", f"the query modifies the ACL it inspects ({sites}): a second removal or the report no longer sees the same state", where(f))
+        else:
+            rep.ok(f"{q}: write-set on self", "empty (works on self.copy())", where=where(f))
+
+
+def r04_3(ctx: Ctx, rep: Report) -> None:  # noqa: C901
+    rep.rule("R04.3")
+    ds = ctx.func("Acl.delete_shadow")
+    cfg = ctx.cfg(ds)
+    defs = _local_defs(ds)
+
+    def first(name: str) -> Optional[ast.AST]:
+        v = defs.get(name)
+        return v[0] if v else None
+
+    def resolve(e: Optional[ast.AST], depth: int = 0) -> Optional[ast.AST]:
+        while isinstance(e, ast.Name) and e.id in defs and depth < 6:
+            # prefer a definition that is not self-referential
+            cands = [x for x in defs[e.id] if not mentions(x, e.id)] or defs[e.id]
+            e = cands[0]
+            depth += 1
+        return e
+
+    # (i) filters
+    filters = []
+    for n in own_nodes(ds.node):
+        if isinstance(n, ast.ListComp) and len(n.generators) == 1:
+            g = n.generators[0]
+            for cond in g.ifs:
+                if isinstance(cond, ast.Compare) and len(cond.ops) == 1 and isinstance(cond.ops[0], ast.NotIn) and isinstance(cond.left, ast.Attribute) and cond.left.attr == "line" and src(cond.left.value) == src(g.target):
+                    filters.append((n, g, cond))
+    rep.instance()
+    if not filters:
+        rep.violation("Acl.delete_shadow", "filter", "no filter of the form [o for o in <items below the top> if o.line not in <report>] removes the shadowed entries", where(ds))
+        return
+    copies = [k for k, v in defs.items() if any(isinstance(x, ast.Call) and isinstance(x.func, ast.Attribute) and x.func.attr == "copy" and src(x.func.value) == "self" for x in v)]
+    for comp, g, cond in filters:
+        srcexpr = g.iter
+        if isinstance(srcexpr, ast.Name):
+            cands = [x for x in defs.get(srcexpr.id, []) if not mentions(x, srcexpr.id)]
+            srcexpr = cands[0] if cands else srcexpr
+        cons = snippet(comp, 80)
+        if isinstance(srcexpr, ast.Subscript) and isinstance(srcexpr.slice, ast.Slice) and srcexpr.slice.lower is not None and srcexpr.slice.upper is None:
+            idx = srcexpr.slice.lower
+            base = srcexpr.value
+            idx_def = resolve(idx)
+            # idx = <lines>.index(top) + k, k >= 1
+            k = None
+            lines_list = None
+            if isinstance(idx_def, ast.BinOp) and isinstance(idx_def.op, ast.Add):
+                for a, b in ((idx_def.left, idx_def.right), (idx_def.right, idx_def.left)):
+                    if isinstance(b, ast.Constant) and isinstance(b.value, int) and isinstance(a, ast.Call) and isinstance(a.func, ast.Attribute) and a.func.attr == "index":
+                        k = b.value
+                        lines_list = a.func.value
+            elif isinstance(idx_def, ast.Call) and isinstance(idx_def.func, ast.Attribute) and idx_def.func.attr == "index":
+                k = 0
+                lines_list = idx_def.func.value
+            if k is None:
+                rep.violation("Acl.delete_shadow", cons, f"the lower bound {snippet(idx)} of the filtered part is not `<lines>.index(top) + 1`", where(ds, comp))
+            elif k < 1:
+                rep.violation("Acl.delete_shadow", f"{snippet(idx)} = {snippet(idx_def)}", "the filtered part starts at the top itself, not after it: the covering entry can be removed", where(ds, comp))
+            else:
+                rep.ok(f"Acl.delete_shadow: filter over {snippet(srcexpr, 40)}", f"tail strictly after the top ({snippet(idx_def, 40)})", where=where(ds, comp))
+            # lines list is the line projection of the same item list, same order
+            ll = resolve(lines_list)
+            rep.instance()
+            if isinstance(ll, ast.ListComp) and len(ll.generators) == 1 and isinstance(ll.elt, ast.Attribute) and ll.elt.attr == "line" and src(ll.generators[0].iter) == src(base) and not ll.generators[0].ifs:
+                rep.ok(f"Acl.delete_shadow: {snippet(lines_list, 20)} = {snippet(ll, 50)}", "positions of lines = positions of items", where=where(ds))
+            else:
+                rep.violation("Acl.delete_shadow", f"{snippet(lines_list) if lines_list is not None else '?'} = {snippet(ll) if ll is not None else '?'}", f"the index is not computed on the line projection of {snippet(base)}: positions do not correspond", where(ds))
+        else:
+            rep.violation("Acl.delete_shadow", cons, f"the filter is applied to {snippet(srcexpr)}, not only to the items after the top: an identical line above the top is removed too", where(ds, comp))
+        # predicate set derives from the report values
+        rep.instance()
+        S = cond.comparators[0]
+        sdefs = defs.get(S.id, []) if isinstance(S, ast.Name) else []
+        from_report = False
+        for sd in sdefs:
+            for x in ast.walk(sd):
+                if isinstance(x, ast.Call) and isinstance(x.func, ast.Attribute) and x.func.attr == "values":
+                    root = resolve(x.func.value)
+                    if _is_shading_call(root) or (isinstance(x.func.value, ast.Name) and any(_is_shading_call(y) for y in defs.get(x.func.value.id, []))):
+                        from_report = True
+        if from_report:
+            rep.ok(f"Acl.delete_shadow: predicate `{snippet(cond)}`", f"{snippet(S)} is the flattened report", where=where(ds, comp))
+        else:
+            rep.violation("Acl.delete_shadow", snippet(cond), "entries are removed by something other than membership in the shading report", where(ds, comp))
+    # (iii) concatenation head + filtered tail, stored to the copy's items
+    rep.instance()
+    stores = []
+    for n in own_nodes(ds.node):
+        if isinstance(n, ast.Assign) and len(n.targets) == 1 and isinstance(n.targets[0], ast.Attribute) and n.targets[0].attr == "items":
+            stores.append(n)
+    concat_ok = False
+    for st in stores:
+        v = st.value
+        if isinstance(v, ast.BinOp) and isinstance(v.op, ast.Add):
+            l, r = resolve(v.left), resolve(v.right)
+            head = isinstance(l, ast.Subscript) and isinstance(l.slice, ast.Slice) and l.slice.lower is None and l.slice.upper is not None
+            # the right operand is (re)bound to the filter
+            tail = any(src(v.right) == src(g.iter) or isinstance(r, ast.ListComp) for comp, g, cond in filters)
+            if head and tail:
+                concat_ok = True
+                rep.ok(f"Acl.delete_shadow: {snippet(st)}", "head kept whole + filtered tail, in this order", where=where(ds, st))
+            else:
+                rep.violation("Acl.delete_shadow", snippet(st), "the new item list is not (items up to the top, unfiltered) + (filtered items below)", where(ds, st))
+                concat_ok = True
+    if not concat_ok:
+        rep.violation("Acl.delete_shadow", "item list rebuild", "no `<copy>.items = head + filtered tail` statement found", where(ds))
+    # (v)/(vi) regroup and final store
+    rep.instance()
+    final = [st for st in stores if src(st.targets[0].value) == "self"]
+    if not final:
+        rep.violation("Acl.delete_shadow", "self.items = ...", "the filtered list is never stored back", where(ds))
+        return
+    fin = final[-1]
+    fin_node = cfg.node_of(fin)
+    ok_src = isinstance(fin.value, ast.Attribute) and fin.value.attr == "items" and src(fin.value.value) in copies
+    if not ok_src:
+        rep.violation("Acl.delete_shadow", snippet(fin), "the stored list is not the item list of the filtered copy", where(ds, fin))
+    else:
+        rep.ok(f"Acl.delete_shadow: {snippet(fin)}", "stores the filtered copy's items", where=where(ds, fin))
+    rep.instance()
+    gconds = [c for c in cfg.live if c.kind == "cond" and src(c.ast) in ("self.group_by", "self._group_by")]
+    regroup_ok = False
+    for c in gconds:
+        tsucc = [s for lab, s in c.succ if lab == "T"]
+        if not tsucc:
+            continue
+
+        def is_group(n: Node) -> bool:
+            if n.kind != "stmt" or not isinstance(n.ast, ast.Expr) or not isinstance(n.ast.value, ast.Call):
+                return False
+            call = n.ast.value
+            if not (isinstance(call.func, ast.Attribute) and call.func.attr == "group"):
+                return False
+            a = [src(x) for x in call.args] + [src(k.value) for k in call.keywords]
+            return a in (["self.group_by"], ["self._group_by"])
+
+        if fin_node is not None and (is_group(tsucc[0]) or cfg.all_paths_pass(tsucc[0], fin_node, is_group, labels_avoid=("exc",))) and cfg.dominates(c, fin_node):
+            regroup_ok = True
+    if regroup_ok:
+        rep.ok("Acl.delete_shadow: regroup", "when self.group_by is set every path to the final store passes <copy>.group(self.group_by)", where=where(ds))
+    else:
+        rep.violation("Acl.delete_shadow", "regroup", "the grouping is not re-applied exactly when self.group_by is set: a grouped ACL comes back flat", where(ds))
+    # (vii) no other removal
+    rep.instance()
+    removers = []
+    for n in own_nodes(ds.node):
+        if isinstance(n, ast.Call) and isinstance(n.func, ast.Attribute) and n.func.attr in ("pop", "remove", "clear", "delete", "__delitem__"):
+            c = chain(n.func.value)
+            if c and (c[0] == "self" or c[0] in copies):
+                removers.append(n)
+        if isinstance(n, ast.Delete):
+            removers.append(n)
+    if removers:
+        rep.violation("Acl.delete_shadow", snippet(removers[0]), "items are removed by a statement other than the report filter", where(ds, removers[0]))
+    else:
+        rep.ok("Acl.delete_shadow: removal sites", "only the report filter removes items")
+
+
+def run(ctx: Ctx, rep: Report, tier: str) -> None:
+    fields = r03_1(ctx, rep, rid="R04.0")
+    for fld in ("_srcport", "_dstport"):
+        h = helper_for_field(ctx, rep, fld)
+        if h is not None:
+            port_cover_rules(ctx, rep, h, fld, rid4="R04.0", do7=False)
+    r04_1(ctx, rep)
+    rep.rule("R04.2")
+    check_strictly_above(ctx, rep, analyse_shading(ctx))
+    r04_3(ctx, rep)
